@@ -53,6 +53,7 @@ inductive TokRole where
   | binaryOp      -- the binary operator token (loop variable guarded by `binaryOperators[token.Value]`)
   | unaryOp       -- the unary operator token
   | pointerTok    -- `#` (or the `.` of `.field` inside a closure)
+  | questionOp    -- the `?` of a conditional (captured at the head of the loop body, before `p.next()`)
   | ownToken      -- the literal's own token (captured at function entry, consumed by `p.next()`)
   | nameToken     -- identifier / function / builtin name token (passed as parameter from the Identifier case)
   | memberName    -- the name after `.` / `?.`
@@ -87,6 +88,9 @@ def roleOf (s : NodeSite) : TokRole :=
        else if s.guards.any (hasSub · "token.Is(Operator, \"#\") || token.Is(Operator, \".\")") then .pointerTok
        else .unknown)
      else .unknown)
+  else if s.fn == "parseConditionalExpression" then
+    (if s.tokDef == "token := p.current" && s.defPrev == "<block start>" && s.otherDefs == []
+        && s.guards == ["p.current.Is(Operator, \"?\") && p.err == nil"] then .questionOp else .unknown)
   else if s.fn == "parsePrimaryExpression" then
     (if s.tokDef == "token := p.current" && s.otherDefs == [] && s.guards.head? == some "switch token.Kind"
      then .ownToken else .unknown)
